@@ -12,16 +12,16 @@ use std::borrow::Cow;
 use anyhow::bail;
 
 pub struct TableEntry<T>(pub u8, pub PhantomData<T>);
-pub trait TableWithBlueprint {}
+pub trait TableWithBlueprint { const ID: u8; }
 pub struct SnapTable; pub struct WrittenTable;
-impl TableWithBlueprint for SnapTable {} impl TableWithBlueprint for WrittenTable {}
+impl TableWithBlueprint for SnapTable { const ID: u8 = 1; } impl TableWithBlueprint for WrittenTable { const ID: u8 = 2; }
 pub trait DatabaseDescription { type Column; }
 pub struct Desc; impl DatabaseDescription for Desc { type Column = u32; }
 pub struct GenesisMetadata<D>(PhantomData<D>);
-impl<D> TableWithBlueprint for GenesisMetadata<D> {}
-/// opaque migration name (the real one is a formatted String of the two column names)
-#[derive(Clone, Copy, PartialEq, Eq)] pub struct Name;
-pub fn migration_name<A: TableWithBlueprint, B: TableWithBlueprint>() -> Name { Name }
+impl<D> TableWithBlueprint for GenesisMetadata<D> { const ID: u8 = 9; }
+/// migration name: identifies the (snapshot table, written table) pair (the real one is a formatted String of the two column names)
+#[derive(Clone, Copy, PartialEq, Eq, Debug)] pub struct Name(pub u8, pub u8);
+pub fn migration_name<A: TableWithBlueprint, B: TableWithBlueprint>() -> Name { Name(A::ID, B::ID) }
 pub struct ProgressReporter { pub last: Cell<Option<usize>> }
 impl ProgressReporter { pub fn set_index(&self, i: usize) { self.last.set(Some(i)); } }
 pub trait NotifyCancel {}
@@ -32,32 +32,36 @@ impl<N> CancellationToken<N> { pub fn is_cancelled(&self) -> bool { let k = self
 
 pub const MAXG: usize = 3;
 /// the database: committed progress + a log of which groups' handler writes were committed
-pub struct GenesisDatabase<D> { pub progress: Cell<Option<usize>>, pub read_fails: bool, pub applied: RefCell<[usize; MAXG]>, pub n_applied: Cell<usize>, pub commit_fails_at: Option<usize>, pub commits: Cell<usize>, pub _d: PhantomData<D> }
+pub struct GenesisDatabase<D> { pub progress_key: Name, pub foreign_progress: Option<usize>, pub progress: Cell<Option<usize>>, pub read_fails: bool, pub applied: RefCell<[usize; MAXG]>, pub n_applied: Cell<usize>, pub commit_fails_at: Option<usize>, pub commits: Cell<usize>, pub wrote_foreign_key: Cell<bool>, pub _d: PhantomData<D> }
 pub struct ProgressRef<'a, D>(&'a GenesisDatabase<D>);
 impl<D> GenesisDatabase<D> {
     pub fn storage<T>(&self) -> ProgressRef<'_, D> { ProgressRef(self) }
     pub fn write_transaction(&mut self) -> StorageTransaction<&mut GenesisDatabase<D>> { StorageTransaction { db: self, handled: None, progress: None } }
 }
 impl<'a, D> ProgressRef<'a, D> {
-    pub fn get(&self, _name: &Name) -> Result<Option<Cow<'a, usize>>, StorageError> { if self.0.read_fails { Err(StorageError) } else { Ok(self.0.progress.get().map(Cow::Owned)) } }
+    pub fn get(&self, name: &Name) -> Result<Option<Cow<'a, usize>>, StorageError> {
+        if self.0.read_fails { return Err(StorageError) }
+        // this task's progress lives under its own migration name; any other name holds some other task's progress (or nothing)
+        Ok(if *name == self.0.progress_key { self.0.progress.get() } else { self.0.foreign_progress }.map(Cow::Owned))
+    }
 }
 #[derive(Debug)] pub struct StorageError;
 impl core::fmt::Display for StorageError { fn fmt(&self, f: &mut core::fmt::Formatter<'_>) -> core::fmt::Result { Ok(()) } }
 impl std::error::Error for StorageError {}
 /// a write transaction: buffers the handler's writes for one group and the progress update; nothing reaches the database before commit
-pub struct StorageTransaction<S> { pub db: S, pub handled: Option<u8>, pub progress: Option<usize> }
+pub struct StorageTransaction<S> { pub db: S, pub handled: Option<u8>, pub progress: Option<(Name, usize)> }
 impl<'a, D> StorageTransaction<&'a mut GenesisDatabase<D>> {
     pub fn commit(self) -> Result<(), StorageError> {
         let c = self.db.commits.get(); self.db.commits.set(c + 1);
         if self.db.commit_fails_at == Some(c) { return Err(StorageError) }
         if let Some(g) = self.handled { let k = self.db.n_applied.get(); if k < MAXG { self.db.applied.borrow_mut()[k] = g as usize; } self.db.n_applied.set(k + 1); }
-        if let Some(p) = self.progress { self.db.progress.set(Some(p)); }
+        if let Some((name, p)) = self.progress { if name == self.db.progress_key { self.db.progress.set(Some(p)); } else { self.db.wrote_foreign_key.set(true); } }
         Ok(())
     }
 }
 pub struct GenesisProgressMutate<D>(PhantomData<D>);
 impl<D> GenesisProgressMutate<D> {
-    pub fn update_genesis_progress(tx: &mut StorageTransaction<&mut GenesisDatabase<D>>, _name: &Name, processed_group: usize) -> Result<(), StorageError> { tx.progress = Some(processed_group); Ok(()) }
+    pub fn update_genesis_progress(tx: &mut StorageTransaction<&mut GenesisDatabase<D>>, name: &Name, processed_group: usize) -> Result<(), StorageError> { tx.progress = Some((*name, processed_group)); Ok(()) }
 }
 pub trait ImportTable {
     type TableInSnapshot: TableWithBlueprint;
@@ -107,7 +111,7 @@ fn run_case(n: usize) {
     let p_some: bool = kani::any();
     let p: usize = kani::any();
     kani::assume(p <= 4);
-    let db = GenesisDatabase::<Desc> { progress: Cell::new(if p_some { Some(p) } else { None }), read_fails: false, applied: RefCell::new([9; MAXG]), n_applied: Cell::new(0),
+    let db = GenesisDatabase::<Desc> { progress_key: Name(1, 2), foreign_progress: if kani::any() { Some(kani::any::<u8>() as usize % 5) } else { None }, wrote_foreign_key: Cell::new(false), progress: Cell::new(if p_some { Some(p) } else { None }), read_fails: false, applied: RefCell::new([9; MAXG]), n_applied: Cell::new(0),
         commit_fails_at: if kani::any() { Some((kani::any::<u8>() % 3) as usize) } else { None }, commits: Cell::new(0), _d: PhantomData };
     let commit_fails_at = db.commit_fails_at;
     let fails_on: Option<u8> = if kani::any() { Some(kani::any::<u8>() % 3) } else { None };
@@ -142,6 +146,7 @@ fn run_case(n: usize) {
     if n == 3 { kani::cover!(ok && w == 2 && skip == 1, "[C40.genesis-task.run.cover-resumed-run-completes]"); kani::cover!(!ok && w == 1, "[C40.genesis-task.run.cover-interrupted-after-one-group]"); }
     kani::assert(n_applied == w && (w < 1 || applied[0] == want[0]) && (w < 2 || applied[1] == want[1]) && (w < 3 || applied[2] == want[2]), "[C40.genesis-task.run.applies-exactly-the-groups-after-the-recorded-progress-in-order-each-once]");
     kani::assert(progress == (if w > 0 { Some(want[w - 1]) } else if p_some { Some(p) } else { None }), "[C40.genesis-task.run.recorded-progress-is-the-last-applied-group]");
+    kani::assert(!unsafe { LAST_FOREIGN }, "[C40.genesis-task.run.progress-is-recorded-under-this-tasks-own-migration-name]");
     // no group left to look at: the answer of the first cancellation poll decides
     let nothing_to_do = !(skip < n);
     kani::assert(ok == (!failed && !stopped && !(nothing_to_do && cancelled_at_entry)), "[C40.genesis-task.run.fails-iff-interrupted]");
@@ -158,9 +163,10 @@ fn task_run(task: ImportTask<Handler, Groups, Desc>, token: CancellationToken<Ne
 #[cfg(kani)] static mut LAST_APPLIED: [usize; MAXG] = [9; MAXG];
 #[cfg(kani)] static mut LAST_N_APPLIED: usize = 0;
 #[cfg(kani)] static mut LAST_PROGRESS: Option<usize> = None;
+#[cfg(kani)] static mut LAST_FOREIGN: bool = false;
 #[cfg(kani)]
 impl<D> Drop for GenesisDatabase<D> {
-    fn drop(&mut self) { unsafe { LAST_APPLIED = *self.applied.borrow(); LAST_N_APPLIED = self.n_applied.get(); LAST_PROGRESS = self.progress.get(); } }
+    fn drop(&mut self) { unsafe { LAST_FOREIGN = self.wrote_foreign_key.get(); LAST_APPLIED = *self.applied.borrow(); LAST_N_APPLIED = self.n_applied.get(); LAST_PROGRESS = self.progress.get(); } }
 }
 #[cfg(kani)] fn fmt_stub(_a: core::fmt::Arguments<'_>) -> String { String::new() }
 
@@ -178,7 +184,7 @@ fn c40_run_0_groups() { run_case(0); }
 //@ harness kind=canary tier=quick expect=C40.genesis-task.canary.nothing-applied timeout=900 extra="--default-unwind 5"
 #[cfg(kani)] #[kani::proof] #[kani::stub(alloc::fmt::format, fmt_stub)]
 fn c40_canary() {
-    let db = GenesisDatabase::<Desc> { progress: Cell::new(None), read_fails: false, applied: RefCell::new([9; MAXG]), n_applied: Cell::new(0), commit_fails_at: None, commits: Cell::new(0), _d: PhantomData };
+    let db = GenesisDatabase::<Desc> { progress_key: Name(1, 2), foreign_progress: None, wrote_foreign_key: Cell::new(false), progress: Cell::new(None), read_fails: false, applied: RefCell::new([9; MAXG]), n_applied: Cell::new(0), commit_fails_at: None, commits: Cell::new(0), _d: PhantomData };
     let task = ImportTask::new(Handler { fails_on: None }, Groups { n: 2, bad: None, next: 0 }, db, ProgressReporter { last: Cell::new(None) });
     let (_ok, _a, n_applied, _p) = task_run(task, CancellationToken::<Never> { cancel_at_poll: 9, polls: Cell::new(0), _n: PhantomData });
     kani::assert(n_applied == 0, "[C40.genesis-task.canary.nothing-applied]");
